@@ -346,7 +346,8 @@ func scenario(id string, seed uint64) runner.Result {
 		if shape == 0 && r.Intn(2) == 0 {
 			park = rg.Dir.ParkAt("conn.invoke.afterInvoke", rg.Pair.A, 1)
 		}
-		desc := fmt.Sprintf("call%d %s %s k=%d req=%d parked=%v", call, rpc, what, p.k, len(req), park != nil)
+		rawRecv := r.Intn(4) == 0 // streaming calls: the client drains through the raw receive entry point
+		desc := fmt.Sprintf("call%d %s %s k=%d req=%d parked=%v raw-recv=%v", call, rpc, what, p.k, len(req), park != nil, rawRecv)
 		descs = append(descs, desc)
 		var got []int
 		op := rig.Go("call", func() (interface{}, error) {
@@ -388,7 +389,12 @@ func scenario(id string, seed uint64) runner.Result {
 			}
 			for {
 				var m Msg
-				err := st.MsgRecv(&m, enc{})
+				var err error
+				if rr, ok := st.(interface{ RawRecv() ([]byte, error) }); ok && rawRecv {
+					m.B, err = rr.RawRecv()
+				} else {
+					err = st.MsgRecv(&m, enc{})
+				}
 				if err != nil {
 					if rig.Cat(err) == "eof" {
 						return nil, nil
